@@ -3,6 +3,7 @@ package rel
 import (
 	"context"
 	"fmt"
+	"github.com/arr-ai/hash"
 	"reflect"
 
 	"github.com/arr-ai/frozen"
@@ -75,11 +76,14 @@ func NewBool(b bool) Set {
 
 // Hash computes a hash for a genericSet.
 func (s GenericSet) Hash(seed uintptr) uintptr {
-	h := seed
+	// Fold the members order-independently, then mix the result: the hash of {x} must differ
+	// from the hash of x, or sets nested in sets compare equal to their own member
+	// (the trie library trusts equal hashes).
+	var h uintptr
 	for e := s.Enumerator(); e.MoveNext(); {
 		h ^= e.Current().Hash(0)
 	}
-	return h
+	return hash.Uintptr(h, seed)
 }
 
 // Equal tests two Sets for equality. Any other type returns false.
